@@ -408,6 +408,91 @@ func runC18(r *Run) {
 		}, nil, func(in ssa.Instruction) bool { return isExitKind(in, ExitSuccess) }, "valid only where the recorded hash equals the transaction hash", "ValidateBasic accepts a message whose recorded hash differs from the Ethereum transaction hash")
 	}
 
+	// access-list conversions (the Accesses ↔ AccessList leg of the field maps): every tuple gets its own key slice
+	r.Rule("R5", "FLOW.access-list: in NewAccessList and ToEthAccessList the value stored into a tuple's StorageKeys is a slice allocated inside the per-tuple loop (make), filled from that tuple's keys; the tuple's Address derives from the source tuple's Address")
+	for _, id := range []string{evmTypes + ".NewAccessList", "(" + evmTypes + ".AccessList).ToEthAccessList"} {
+		fn, ok := P.FnOK(id)
+		if !ok {
+			r.Bad("R5", "anchor/"+id, "", "not found")
+			continue
+		}
+		nSt := 0
+		eachInstr(fn, func(in ssa.Instruction) {
+			st, ok := in.(*ssa.Store)
+			if !ok {
+				return
+			}
+			sn, f, ok := fieldOfAddr(st.Addr)
+			if !ok || sn != "AccessTuple" {
+				return
+			}
+			switch f {
+			case "StorageKeys":
+				nSt++
+				mk, isMk := stripValue(st.Val).(*ssa.MakeSlice)
+				fresh := isMk && sameLoop(mk.Block(), st.Block())
+				dep := isMk && backSlice(mk.Len).HasField("AccessTuple", "StorageKeys")
+				r.Check(fresh && dep, "R5", fnID(fn)+"#tuple-keys-fresh", P.Pos(instrPos(in)), "per-tuple make([]…, len(tuple.StorageKeys))",
+					"a tuple's StorageKeys is not a slice freshly allocated for that tuple (sized by that tuple's keys): tuples can share a backing array, so unwrapping the message yields a different access list — and a different hash and sender — than the one that was signed")
+			case "Address":
+				r.Check(backSlice(st.Val).HasField("AccessTuple", "Address"), "R5", fnID(fn)+"#tuple-address", P.Pos(instrPos(in)), "Address from the source tuple's Address", "a tuple's Address does not derive from the source tuple's Address")
+			}
+		})
+		r.Floor("R5", "StorageKeys stores in "+id, nSt, 1)
+		// keys are converted element-wise from the same tuple
+		okElem := false
+		eachInstr(fn, func(in ssa.Instruction) {
+			st, ok := in.(*ssa.Store)
+			if !ok {
+				return
+			}
+			if ia, ok := st.Addr.(*ssa.IndexAddr); ok {
+				if _, isMk := ia.X.(*ssa.MakeSlice); isMk && backSlice(st.Val).HasField("AccessTuple", "StorageKeys") {
+					okElem = true
+				}
+			}
+		})
+		r.Check(okElem, "R5", fnID(fn)+"#keys-copied", P.Pos(fnPos(fn)), "each key converted from the tuple's StorageKeys", "the per-tuple key slice is not filled from the tuple's own StorageKeys")
+	}
+
+	// effective gas price: one definition only
+	if fn, ok := P.FnOK("(" + evmTypes + ".DynamicFeeTx).EffectiveGasPrice"); ok {
+		nRet, okE := 0, true
+		eachInstr(fn, func(in ssa.Instruction) {
+			ret, isR := in.(*ssa.Return)
+			if !isR {
+				return
+			}
+			nRet++
+			c, isC := ret.Results[0].(*ssa.Call)
+			if !isC || callInfo(c).Name != "EffectiveGasPrice" || callInfo(c).Recv != "" || len(c.Call.Args) != 3 {
+				okE = false
+				return
+			}
+			a := c.Call.Args
+			_, c1 := callNamed(a[1], "GetGasFeeCap")
+			_, c2 := callNamed(a[2], "GetGasTipCap")
+			if !isParam(a[0], "baseFee") || !c1 || !c2 {
+				okE = false
+			}
+		})
+		r.Check(okE && nRet == 1, "R4", fnID(fn)+"#single-definition", P.Pos(fnPos(fn)), "returns EffectiveGasPrice(baseFee, feeCap, tipCap) and nothing else", "DynamicFeeTx.EffectiveGasPrice is not the single expression EffectiveGasPrice(baseFee, GetGasFeeCap(), GetGasTipCap()): effective price/fee/cost figures derived from the message can differ from go-ethereum's for the same transaction")
+	}
+	for _, tn := range []string{"LegacyTx", "AccessListTx"} {
+		if fn, ok := P.FnOK("(" + evmTypes + "." + tn + ").EffectiveGasPrice"); ok {
+			nRet, okE := 0, true
+			eachInstr(fn, func(in ssa.Instruction) {
+				if ret, isR := in.(*ssa.Return); isR {
+					nRet++
+					if _, isG := callNamed(ret.Results[0], "GetGasPrice"); !isG {
+						okE = false
+					}
+				}
+			})
+			r.Check(okE && nRet == 1, "R4", fnID(fn)+"#single-definition", P.Pos(fnPos(fn)), "returns GetGasPrice()", tn+".EffectiveGasPrice is not GetGasPrice()")
+		}
+	}
+
 	// ---------- R4 ----------
 	feeDeps := map[string]map[string][]string{
 		"LegacyTx":     {"Fee": {"GetGasPrice", "GasLimit"}, "Cost": {"Fee", "GetValue"}},
@@ -449,4 +534,57 @@ func runC18(r *Run) {
 			r.Check(len(missing) == 0, "R4", evmTypes+"."+tname+"#"+meth, P.Pos(fnPos(fn)), fmt.Sprintf("depends on %v", deps), fmt.Sprintf("%s.%s no longer depends on %v", tname, meth, missing))
 		}
 	}
+}
+
+// sameLoop: a and b have the same innermost enclosing natural loop (and are inside one).
+func sameLoop(a, b *ssa.BasicBlock) bool {
+	ha, hb := innermostLoop(a), innermostLoop(b)
+	return ha != nil && ha == hb
+}
+
+// loopBody: natural loop of header h = h plus the blocks that reach a back-edge predecessor of h without passing h.
+func loopBody(h *ssa.BasicBlock) map[*ssa.BasicBlock]bool {
+	body := map[*ssa.BasicBlock]bool{h: true}
+	var work []*ssa.BasicBlock
+	for _, p := range h.Preds {
+		if dominates(h, p) && !body[p] {
+			body[p] = true
+			work = append(work, p)
+		}
+	}
+	for len(work) > 0 {
+		x := work[len(work)-1]
+		work = work[:len(work)-1]
+		for _, p := range x.Preds {
+			if !body[p] {
+				body[p] = true
+				work = append(work, p)
+			}
+		}
+	}
+	return body
+}
+
+func innermostLoop(b *ssa.BasicBlock) *ssa.BasicBlock {
+	var best *ssa.BasicBlock
+	bestSize := 0
+	for _, h := range b.Parent().Blocks {
+		if !isLoopHeader(h) {
+			continue
+		}
+		body := loopBody(h)
+		if body[b] && (best == nil || len(body) < bestSize) {
+			best, bestSize = h, len(body)
+		}
+	}
+	return best
+}
+
+func isLoopHeader(b *ssa.BasicBlock) bool {
+	for _, p := range b.Preds {
+		if dominates(b, p) {
+			return true
+		}
+	}
+	return false
 }
